@@ -254,6 +254,14 @@ func planC12(g *Gen, tier string) ([]SQLCase, map[string]int, bool) {
 					stats["no-fault"]++
 					// the Tx variants: the caller's transaction is never finished, with or without a failure
 					for k := 0; k <= ncalls-1; k++ {
+						if k >= 1 && (k+n)%2 == 0 {
+							// the context passed to ToSQLTxContext is cancelled once k calls have been made (k = 1: before
+							// the export's first call)
+							c := base
+							c.Tx, c.Entry, c.Cancel = true, "ToSQLTxContext", k
+							cases = append(cases, SQLCase{Kind: "w", Tag: "tx-variant-cancel", W: &c})
+							stats["tx-variant-cancel"]++
+						}
 						if k == 1 {
 							continue // call 1 is the harness's own Begin
 						}
@@ -346,6 +354,9 @@ func planC13(g *Gen, tier string) ([]SQLCase, map[string]int, bool) {
 		}
 		f := mkFrame(cols...)
 		d := []string{"sqlite", "postgres", "mysql"}[g.r.Intn(3)]
+		if g.chance(0.3) {
+			d = dialectNames[g.r.Intn(len(dialectNames))] // aliases and other spellings select the same dialect
+		}
 		tname := hostile[g.r.Intn(len(hostile))]
 		if tname == "other" {
 			tname = "t"
@@ -466,6 +477,13 @@ func planC14(g *Gen, tier string) ([]SQLCase, map[string]int, bool) {
 				if g.chance(0.4) {
 					dates = append(dates, names[c])
 					isDate[c] = true
+				}
+			}
+			if len(dates) > 1 && g.chance(0.5) {
+				// the list in another order than the result set's, sometimes with a repeat
+				g.r.Shuffle(len(dates), func(a, b int) { dates[a], dates[b] = dates[b], dates[a] })
+				if g.chance(0.3) {
+					dates = append(dates, dates[0])
 				}
 			}
 			if g.chance(0.1) {
